@@ -16,39 +16,80 @@ fn norm_errs(errs: &J) -> Vec<J> {
     errs.as_array().map(|a| a.iter().map(norm_err).collect()).unwrap_or_default()
 }
 
-/// The projection of an observation {ok,out,errs,panic,insp,obs} that property `prop` pins.
-pub fn proj(prop: &str, mode: &str, o: &J) -> J {
+/// Which fields of an observation a property pins.  The same mask is written into recorded
+/// cases so that the TLA+ side (MC.tla Matches) compares exactly the same fields.
+#[derive(Clone, Copy, Debug)]
+pub struct Mask {
+    pub out: bool,
+    pub errs: &'static str, // "all" | "ifok" | "last" | "none"
+    pub obs: &'static str,  // "none" | "ext" | "insp" | "all"
+    pub insp: bool,
+}
+
+pub fn mask_for(prop: &str) -> Mask {
+    match prop {
+        "ALL" => Mask { out: true, errs: "all", obs: "all", insp: true },
+        // acceptance, value, how much each sub-parser consumed (probe extents)
+        "C01" | "C02" => Mask { out: true, errs: "none", obs: "ext", insp: false },
+        "C03" | "C19" | "C20" => Mask { out: false, errs: "none", obs: "none", insp: false },
+        "C04" => Mask { out: false, errs: "all", obs: "none", insp: false },
+        "C05" => Mask { out: false, errs: "ifok", obs: "none", insp: false },
+        "C06" => Mask { out: false, errs: "last", obs: "none", insp: false },
+        "C07" => Mask { out: true, errs: "none", obs: "none", insp: false },
+        "C18" => Mask { out: true, errs: "none", obs: "insp", insp: true },
+        // C08, C10, C11, C12, C13, C15, C16, C17: acceptance, outputs, errors
+        _ => Mask { out: true, errs: "all", obs: "none", insp: false },
+    }
+}
+
+impl Mask {
+    pub fn to_json(&self) -> J {
+        json!({"out": self.out, "errs": self.errs, "obs": self.obs, "insp": self.insp})
+    }
+}
+
+/// The projection of an observation {ok,out,errs,panic,insp,obs} under a mask.
+pub fn proj_mask(m: &Mask, mode: &str, o: &J) -> J {
     let ok = o["ok"].as_bool().unwrap_or(false);
     let panic = o["panic"].as_bool().unwrap_or(false);
     let errs = norm_errs(&o["errs"]);
-    let out = if ok && mode == "E" { o["out"].clone() } else { J::Null };
-    let ext: Vec<J> = o["obs"].as_array().map(|a| a.iter().map(|e| json!([e[0], e[1]])).collect()).unwrap_or_default();
-    let last = errs.last().cloned().unwrap_or(J::Null);
-    match prop {
-        "ALL" => json!({"ok": ok, "out": out, "errs": errs, "panic": panic, "insp": o["insp"], "obs": o["obs"]}),
-        // acceptance, value, how much each sub-parser consumed (probe extents)
-        "C01" | "C02" => json!({"ok": ok, "out": out, "ext": ext, "panic": panic}),
-        "C03" => json!({"ok": ok, "panic": panic}),
-        "C04" => json!({"ok": ok, "errs": errs, "panic": panic}),
-        "C05" => json!({"ok": ok, "errs": if ok { json!(errs) } else { J::Null }, "panic": panic}),
-        "C06" => {
-            if ok || panic {
-                json!({"ok": ok, "panic": panic})
+    let out = if m.out && ok && mode == "E" { o["out"].clone() } else { J::Null };
+    let n = match m.obs {
+        "ext" => 2,
+        "insp" => 3,
+        "all" => 4,
+        _ => 0,
+    };
+    let obs: Vec<J> = if n == 0 {
+        vec![]
+    } else {
+        o["obs"].as_array().map(|a| a.iter().map(|e| J::Array((0..n).map(|k| e[k].clone()).collect())).collect()).unwrap_or_default()
+    };
+    let errs = match m.errs {
+        "all" => json!(errs),
+        "ifok" => {
+            if ok {
+                json!(errs)
             } else {
-                json!({"ok": ok, "s": last["s"], "e": last["e"], "found": last["found"], "exp": last["exp"], "cust": last["cust"]})
+                J::Null
             }
         }
-        "C07" => json!({"ok": ok, "out": out, "panic": panic}),
-        "C17" => json!({"ok": ok, "out": out, "errs": errs, "panic": panic}),
-        "C18" => {
-            let ins: Vec<J> = o["obs"].as_array().map(|a| a.iter().map(|e| json!([e[0], e[1], e[2]])).collect()).unwrap_or_default();
-            json!({"ok": ok, "insp": if ok { o["insp"].clone() } else { J::Null }, "obs": ins, "out": out, "panic": panic})
+        "last" => {
+            if ok || panic {
+                J::Null
+            } else {
+                let last = errs.last().cloned().unwrap_or(J::Null);
+                json!({"s": last["s"], "e": last["e"], "found": last["found"], "exp": last["exp"], "cust": last["cust"]})
+            }
         }
-        "C19" => json!({"ok": ok, "panic": panic}),
-        "C20" => json!({"panic": panic, "ok": ok}),
-        // C08, C10, C11, C12, C13, C15, C16: acceptance, outputs, errors
-        _ => json!({"ok": ok, "out": out, "errs": errs, "panic": panic}),
-    }
+        _ => J::Null,
+    };
+    let insp = if m.insp && ok { o["insp"].clone() } else { J::Null };
+    json!({"ok": ok, "panic": panic, "out": out, "errs": errs, "obs": obs, "insp": insp})
+}
+
+pub fn proj(prop: &str, mode: &str, o: &J) -> J {
+    proj_mask(&mask_for(prop), mode, o)
 }
 
 pub struct ReplayStats {
